@@ -39,11 +39,32 @@ def run(rep, tier):
     br = common.guarded(rep, "C03.2", c03.c03_2, rep, ix, M)
     if br:
         common.guarded(rep, "C03.8", c03.c03_8, rep, ix, M, cc, br)
+        # a later expression over a declared variable sees the value as written: the evaluator's operators build new values
+        common.guarded(rep, "C03.3", c03.c03_3, rep, ix, M, cc, br)
+    common.guarded(rep, "C05.6", c05_6, rep, ix)
     aliasing_lint(rep, ix)
     shared_tables(rep, ix, M.G)
     # an initialiser is the text the caller wrote: nothing rewrites the script between the API and the lexer
     from . import c10
     common.guarded(rep, "C10.2", c10.c10_2, rep, ix)
+
+
+def c05_6(rep, ix):
+    R = "C05.6"
+    rep.rule(R, "a value stored in the variable table is never modified in place: no mutation in the package targets an object reached *through* auxiliary._VAR (the table itself is "
+                "written by declaration, loop binding and clear only)", floor=1)
+    E = common.eff(rep)
+    n = 0
+    for q, evs in sorted(E.events.items()):
+        f = ix.funcs[q]
+        for e in evs:
+            inner = sorted(o for o in e.target.self_o if o.startswith("IN:") and "GLOBAL:auxiliary._VAR" in o)
+            if inner and e.via is None:
+                n += 1
+                rep.bad(R, ix.site(f, e.node), "`%s` leaves the declared variables as they were written" % " ".join(u(e.node).split())[:70],
+                        "%s: the object may be a declared variable's value (%s), which every later expression reads" % (e.what, ", ".join(inner)), key="%s|%s" % (q, " ".join(u(e.node).split())[:60]))
+    if not n:
+        rep.ok(R, "package", "no in-place modification of an object reached through the variable table (%d mutation events inspected)" % sum(len(v) for v in E.events.values()))
 
 
 def c05_1(rep, ix, G):
